@@ -133,6 +133,11 @@ func (m *machine) buildOperand(ins instr) *operand {
 			return nil
 		}
 		return mkPt(op0.level-1, op0.scale)
+	case kPtHigh:
+		if op0.level >= w.L {
+			return nil
+		}
+		return mkPt(op0.level+1, op0.scale)
 	case kBig:
 		// a fresh *big.Int every time: the evaluator is known to normalise the caller's value in place
 		// (DESIGN §10; that is C09's property), the model must not be corrupted by it.
@@ -353,7 +358,7 @@ func (m *machine) step(c *engine.Chooser, idx int, ins instr, last bool) bool {
 	case ins.op.binary():
 		o := m.buildOperand(ins)
 		if o == nil {
-			c.Skip("instruction not applicable in this state (plaintext below level 0)")
+			c.Skip("instruction not applicable in this state (plaintext below level 0 / above the top level)")
 			return false
 		}
 		var acc *reg
@@ -424,6 +429,12 @@ func (m *machine) step(c *engine.Chooser, idx int, ins instr, last bool) bool {
 					out = bgv.NewCiphertext(w.params, d, l)
 				case dInPlace:
 					out = a.ct
+				case dStale:
+					d := 2
+					if (ins.op == opAdd || ins.op == opSub) && o.isEl && !exp.mustErr {
+						d = exp.deg
+					}
+					out = m.staleReceiver(d)
 				default:
 					out = acc.ct
 				}
@@ -455,7 +466,7 @@ func (m *machine) step(c *engine.Chooser, idx int, ins instr, last bool) bool {
 		if w.cf.si {
 			// documented: "if the evaluator has been instantiated as scale-invariant (BFV-style), then Rescale is a nop"
 			out := a.ct
-			if ins.dst == dFresh {
+			if ins.dst == dFresh || ins.dst == dStale {
 				out = bgv.NewCiphertext(w.params, a.deg, a.level)
 			}
 			var err error
@@ -468,7 +479,7 @@ func (m *machine) step(c *engine.Chooser, idx int, ins instr, last bool) bool {
 				m.fail(c, sigBase+"/unexpected-error", "Rescale on a scale-invariant evaluator is documented as a nop but returned: %v", err)
 				return false
 			}
-			if ins.dst == dFresh {
+			if ins.dst == dFresh || ins.dst == dStale {
 				for _, p := range out.Value {
 					for _, row := range p.Coeffs {
 						for _, x := range row {
@@ -496,6 +507,8 @@ func (m *machine) step(c *engine.Chooser, idx int, ins instr, last bool) bool {
 			out := a.ct
 			if ins.dst == dFresh {
 				out = bgv.NewCiphertext(w.params, a.deg, maxInt(a.level-1, 0))
+			} else if ins.dst == dStale {
+				out = m.staleReceiver(a.deg)
 			}
 			return callResult{out, ev.Rescale(a.ct, out)}
 		}
@@ -523,6 +536,9 @@ func (m *machine) step(c *engine.Chooser, idx int, ins instr, last bool) bool {
 				return callResult{out, err}
 			case dFresh:
 				out := bgv.NewCiphertext(w.params, 1, a.level)
+				return callResult{out, ev.Relinearize(a.ct, out)}
+			case dStale:
+				out := m.staleReceiver(2)
 				return callResult{out, ev.Relinearize(a.ct, out)}
 			}
 			return callResult{a.ct, ev.Relinearize(a.ct, a.ct)}
@@ -650,6 +666,9 @@ func (m *machine) stepMatchScales(c *engine.Chooser, ins instr, sigBase string, 
 	if ins.dst == dPartner2 {
 		pi = 2
 	}
+	if ins.dst == dPartner3 {
+		pi = 3
+	}
 	if pi == ins.src {
 		pi = m.otherReg(ins.src)
 	}
@@ -686,6 +705,23 @@ func (m *machine) stepMatchScales(c *engine.Chooser, ins instr, sigBase string, 
 		return false
 	}
 	return m.verify(c, ins, sigBase, []int{ins.src, pi}, last)
+}
+
+// staleReceiver returns a distinct ciphertext of the given degree at the top level, filled with deterministic
+// non-zero residues and carrying a foreign scale: a receiver that has been used for something else before.
+func (m *machine) staleReceiver(deg int) *rlwe.Ciphertext {
+	w := m.w
+	ct := bgv.NewCiphertext(w.params, deg, w.L)
+	for k := range ct.Value {
+		for i, row := range ct.Value[k].Coeffs {
+			q := w.qs[i]
+			for j := range row {
+				row[j] = (0x9E3779B97F4A7C15*uint64(1+j+1000*i+77777*k) + 12345) % q
+			}
+		}
+	}
+	ct.Scale = w.params.NewScale(5 % w.t)
+	return ct
 }
 
 // sigBaseOf maps an instruction to the stable part of a violation signature: opcode group / operand class.
